@@ -22,6 +22,8 @@ def run(ctx):
     ctx.run_rule("S1", r_state.rule_S1, cfgs)
     ctx.run_rule("S2", r_state.rule_S2, cfgs)
     ctx.run_rule("S4c", r_state.rule_clone, cfgs)
+    import r_hazmat
+    ctx.run_rule("S5", r_hazmat.rule_S5, cfgs)      # who writes the hazmat offset (reset must be one of them)
 
 TECHNIQUE = "MIR field-write-set fixpoint (reset coverage) + constructor/reset value-flow comparison + type-structure walk"
 DESIGN_REF = "DESIGN.md section 2 (S1, S2, S4) and section 4 (C10)"
